@@ -370,7 +370,7 @@ theorem mailParams_utf8 (cfg : Cfg) (rest : List (Bytes × Bytes)) (o : MailOpts
   rw [Server.mailParams]
   have k1 : ("SMTPUTF8".b == "SIZE".b) = false := by decide +kernel
   have k2 : ("SMTPUTF8".b == "SMTPUTF8".b) = true := by decide +kernel
-  simp only [k1, k2, Bool.false_eq_true, if_false, if_true, h, Bool.not_true]
+  simp only [k1, k2, Bool.false_eq_true, if_false, if_true, h, Bool.not_true, List.isEmpty_nil]
 
 theorem mailParams_reqtls (cfg : Cfg) (rest : List (Bytes × Bytes)) (o : MailOpts) (bm : Bool) (h : cfg.reqtls = true) :
     Server.mailParams cfg (("REQUIRETLS".b, []) :: rest) o bm = Server.mailParams cfg rest { o with requireTLS := true } bm := by
@@ -378,7 +378,7 @@ theorem mailParams_reqtls (cfg : Cfg) (rest : List (Bytes × Bytes)) (o : MailOp
   have k1 : ("REQUIRETLS".b == "SIZE".b) = false := by decide +kernel
   have k2 : ("REQUIRETLS".b == "SMTPUTF8".b) = false := by decide +kernel
   have k3 : ("REQUIRETLS".b == "REQUIRETLS".b) = true := by decide +kernel
-  simp only [k1, k2, k3, Bool.false_eq_true, if_false, if_true, h, Bool.not_true]
+  simp only [k1, k2, k3, Bool.false_eq_true, if_false, if_true, h, Bool.not_true, List.isEmpty_nil]
 
 /-- the BODY values the client can send -/
 def bodyVal (v : Bytes) : Prop := v = "7BIT".b ∨ v = "8BITMIME".b ∨ v = "BINARYMIME".b
